@@ -130,7 +130,7 @@ fn gen_cmd(rng: &mut Rng, prompt: bool, hot: &[u32], ds: u16) -> PCmd {
             (PK::Ds(n), format!("{} {} :{}{}", kwc(rng, "print"), kwc(rng, "mem"), sp, sn), d)
         }
         _ => {
-            let g = ["", "foo", "print", "print mem", "print regs", "print mem 5", "print mem 5 ->", "next please", "print mem -1 -> 4", "mov ax,1", "print mem 1 : 2 : 3", "99999999999999999999999"];
+            let g = ["", "foo", "print", "print mem", "print regs", "print mem 5", "print mem 5 ->", "next please", "print mem -1 -> 4", "mov ax,1", "print mem 1 : 2 : 3", "99999999999999999999999", "pr\u{ed}nt reg", "\u{f1}", "print r\u{e9}gs", "print\u{a0}mem 1 -> x", "\u{1F600}"];
             (PK::Garbage, g[rng.below(g.len())].to_string(), true)
         }
     };
